@@ -14,7 +14,16 @@ use std::{
 
 use serde_json::{json, Value};
 
-pub const VERIF_DIR: &str = "/verif";
+/// Where evidence, replays and the known-findings file live (overridable so that experiments on a scratch copy of the
+/// repository do not touch the registered evidence)
+pub fn verif_dir() -> String {
+    std::env::var("BPPMC_VERIF_DIR").unwrap_or_else(|_| "/verif".to_string())
+}
+
+/// The repository whose sources the C18 source scan reads
+pub fn repo_dir() -> String {
+    std::env::var("BPPMC_REPO_DIR").unwrap_or_else(|_| "/repo".to_string())
+}
 
 #[derive(Clone, Copy, Debug, PartialEq, Eq)]
 pub enum Tier {
@@ -157,7 +166,7 @@ pub struct KnownFinding {
 }
 
 pub fn load_known_findings() -> Vec<KnownFinding> {
-    let path = format!("{}/known_findings.json", VERIF_DIR);
+    let path = format!("{}/known_findings.json", verif_dir());
     let text = match fs::read_to_string(&path) {
         Ok(t) => t,
         Err(_) => return Vec::new(),
@@ -539,7 +548,7 @@ impl Report {
         }
         let mut replay_paths = Vec::new();
         if !self.violations.is_empty() {
-            let dir = PathBuf::from(VERIF_DIR).join("replays");
+            let dir = PathBuf::from(verif_dir()).join("replays");
             let _ = fs::create_dir_all(&dir);
             for (key, what) in self.violations.iter().take(25) {
                 let path = dir.join(format!("{}-{:016x}.json", self.id, fnv(key)));
@@ -592,7 +601,7 @@ impl Report {
                 "wall_s": self.wall(),
                 "violations": self.violations.len(),
             });
-            let dir = PathBuf::from(VERIF_DIR).join("evidence");
+            let dir = PathBuf::from(verif_dir()).join("evidence");
             let _ = fs::create_dir_all(&dir);
             fs::write(dir.join(format!("{}.json", self.id)), serde_json::to_string_pretty(&ev).unwrap())
                 .expect("write evidence");
